@@ -154,6 +154,18 @@ CHECKS = {
              "operations 'child performs its next step' and 'time passes'. Histories of length 4 (quick) / 6 (thorough), every newly found state expanded "
              "with every operation. Oracle: ref_life (state NOT_STARTED -> RUNNING -> EXITED only; what each call must return in each state, using the "
              "kernel for pending-byte truth), no sanitizer report, no signal death, nothing left after destroy."),
+    "C18": dict(
+        cat="model_checking", design="3/C18", engine="h_c18",
+        technique="bounded exhaustive enumeration of argument vectors and environment lists through the real Windows sources (compiled on Linux against stub Win32 functions, ASan/UBSan), round-trip checked with an independent implementation of the documented splitting rules",
+        text="process.windows.c and utf.windows.c are compiled unchanged with -D_WIN32 against /verif/winstub/windows.h; the real process_start() runs and a "
+             "recording CreateProcessW captures the command line and the environment block. Every vector of 1 argument of length <=6, 2 arguments <=3, 3 "
+             "arguments <=2 (thorough: 8/4/3; 78 M vectors) over {a, space, tab, newline, vertical tab, double quote, backslash} including empty strings, for "
+             "argv[0] with and without a space, plus 2-/3-/4-byte UTF-8 characters next to quotes and backslashes, must split back into exactly argv; 948 "
+             "environment cases (parent blocks of 0/1/3 entries x EXTEND/EMPTY x every list of 0..3 extra entries over 5 shapes, NULL vs empty list, invalid "
+             "UTF-8 => clean failure) must give parent entries then extra entries, each NUL-terminated, one closing NUL; ASan proves the buffers are "
+             "large enough. Outside the bound: longer strings (the property's 'longer ones at random' is sampling, a different family, not done).",
+        note="Trusted base: gcc, ASan/UBSan, the stub Win32 layer (a strict UTF-8 -> UTF-16 converter, recording CreateProcessW) and the splitting oracle in "
+             "/verif/winstub/h_c18.c. wchar_t is 4 bytes on this platform: each element holds one UTF-16 code unit. Real Windows is not involved."),
 }
 
 NOT_YET = "check not built yet (work in progress; see DESIGN.md section 7 for the build order)"
